@@ -28,7 +28,10 @@ func init() {
 }
 
 // block-content operations of a branch block
-var c10Ops = []string{"empty", "S6a", "S6b", "S3", "G", "T"}
+// "CH": a block from a foreign miner in which q0 spends a denomination-6 output into an output for q1
+// and q1 spends THAT output again (to q2) in the same block - a chain the node's own worker never
+// assembles (it reads inputs from the committed ledger only)
+var c10Ops = []string{"empty", "S6a", "S6b", "S3", "G", "T", "CH"}
 
 type c10Case struct {
 	A []int `json:"branchA"`
@@ -99,6 +102,14 @@ func c10ApplyOp(s *scen, op int) (bool, error) {
 		for d := uint8(1); d <= 6 && tx == nil; d++ {
 			tx = s.qiSpendDenom(s.q[1], d, 0, s.q[2].Addr.Bytes(), d-1)
 		}
+	case "CH":
+		tx = s.qiSpendDenom(s.q[0], 6, 0, s.q[1].Addr.Bytes(), 5)
+		if tx == nil {
+			return false, nil
+		}
+		second := core.VQiTx(s.n.ChainID(), core.VZoneLoc, []core.VQiIn{{Hash: tx.Hash(), Index: 0, Key: s.q[1]}},
+			[]core.VQiOut{{Denom: 4, Addr: s.q[2].Addr}}, nil, s.q[1])
+		s.extra = []*types.Transaction{second}
 	case "T":
 		to := s.k[1].Addr
 		tx = s.n.QuaiTx(s.k[0], s.nonce(s.k[0]), &to, big.NewInt(5), 21000, scenPrice, nil)
@@ -135,7 +146,7 @@ func c10BuildBranch(prefix []*types.WorkObject, ops []int, salt int64) (*c10Bran
 		if !ok {
 			return nil, nil // not applicable
 		}
-		blk, err := s.mine(core.VBuildOpts{Order: 2, Fill: true, Salt: salt*8 + int64(i)})
+		blk, err := s.mine(s.opts(core.VBuildOpts{Order: 2, Fill: true, Salt: salt*8 + int64(i)}))
 		if err != nil {
 			return nil, fmt.Errorf("branch %v block %d: own block rejected: %w", ops, i, err)
 		}
